@@ -421,7 +421,7 @@ PROPS['C16'] = dict(
           'polls - must end live with no owed acknowledgement, no pending PUBREL, a publish-quiescent session and no pending handle; a '
           'poll that returns without a message must have made wire progress; an operation performing 50000 I/O calls (model: fuel) is '
           'reported as spinning.',
-    note='Partial: termination of the engine loops is a theorem (strictly decreasing measure, no assumption on the transport); drive() sending everything queued on a behaving transport is a theorem (no broker size limit; C16_drive_sends_all_any_timer: also when a PINGREQ falls due), and what it writes is exactly what the queues owed (C16_drive_writes_owed); so is poll() handing an arrived packet to the session and a PUBACK completing its publish in one poll (no PINGREQ due); one whole QoS 1 exchange against the answering broker is a single theorem (Exchange.v, Exchange2.v: C16_publish_is_sent_and_answered, C16_qos1_exchange_completes, C16_qos2_exchange_completes - for QoS 2: publish, poll (PUBREC in, PUBREL out, PUBCOMP arrives), poll (PUBCOMP in) - publish() puts exactly the encoded PUBLISH on the wire, the broker reads it whole and answers with the PUBACK of its identifier, the next poll() completes the handle, returns the quota slot and leaves the session quiescent; C16_exchange_example / C16_exchange_hyps_met); that the answers to an arbitrary backlog (QoS 2, subscriptions, replays after reconnect) complete every handle within a bounded number of polls is a check over generated histories. '
+    note='Partial: termination of the engine loops is a theorem (strictly decreasing measure, no assumption on the transport); drive() sending everything queued on a behaving transport is a theorem (no broker size limit; C16_drive_sends_all_any_timer: also when a PINGREQ falls due), and what it writes is exactly what the queues owed (C16_drive_writes_owed); so is poll() handing an arrived packet to the session and a PUBACK completing its publish in one poll (no PINGREQ due); one whole QoS 1 exchange against the answering broker is a single theorem (Exchange.v, Exchange2.v, Exchange3.v: C16_publish_is_sent_and_answered, C16_qos1_exchange_completes, C16_qos2_exchange_completes, C16_subscribe_exchange_completes, C16_unsubscribe_exchange_completes - for QoS 2: publish, poll (PUBREC in, PUBREL out, PUBCOMP arrives), poll (PUBCOMP in) - publish() puts exactly the encoded PUBLISH on the wire, the broker reads it whole and answers with the PUBACK of its identifier, the next poll() completes the handle, returns the quota slot and leaves the session quiescent; C16_exchange_example / C16_exchange_hyps_met); that the answers to an arbitrary backlog (QoS 2, subscriptions, replays after reconnect) complete every handle within a bounded number of polls is a check over generated histories. '
          'Trusted: Coq kernel, model, extraction, harness with its healing action and automatic broker. No axioms. '
          'Known finding K12 (arena too full to reconnect) blocks the drain and is reported as KNOWN-FINDING.')
 
